@@ -279,6 +279,12 @@ def r12_6(ctx):
         return
     back = [(b, t) for b, t in f.calls() if callee_is(t, "Reader::backward")]
     isw = [(b, t) for b, t in f.calls() if callee_is(t, "is_whitespace")]
+    if not isw:
+        # the test may be the predicate of a combinator (`checked_sub(1).is_some_and(|last| is_whitespace(..))`): the call
+        # that receives the closure stands for it
+        for g in prog.closures_of(f):
+            if any(callee_is(tt, "is_whitespace") for bb, tt in g.calls()):
+                isw += [(b, t) for b, t in f.calls() if g.id in (t.get("arg_adts") or []) and f.locals[t["dest"][0]]["ty"] == "bool"]
     ok = False
     if back and isw:
         e = bool_switch_edges(f, isw[0][1]["dest"][0])
